@@ -42,6 +42,7 @@ type thread struct {
 	finished bool
 	label    string
 	crashed  bool
+	can      func() bool // nil = enabled; else the thread is enabled only while can() holds (a lock wait)
 }
 
 type Sched struct {
@@ -54,7 +55,10 @@ type Sched struct {
 }
 
 // Point is called by a harness thread before each hooked operation.
-func (s *Sched) Point(label string) {
+func (s *Sched) Point(label string) { s.PointIf(label, nil) }
+
+// PointIf parks the thread until the scheduler selects it, which it only does while can() holds.
+func (s *Sched) PointIf(label string, can func() bool) {
 	s.mu.Lock()
 	t := s.byGoid[goid()]
 	s.mu.Unlock()
@@ -62,8 +66,10 @@ func (s *Sched) Point(label string) {
 		return // not a scheduled thread (e.g. the observer)
 	}
 	t.label = label
+	t.can = can
 	s.arrive <- t.id
 	<-t.wake
+	t.can = nil
 	if s.abort {
 		panic(schedAbort{})
 	}
@@ -118,12 +124,29 @@ func (s *Sched) Run(prefix []int, bodies []func(), horizon int, between func(ste
 	step := 0
 	for {
 		var enabled []int
+		unfinished := 0
 		for _, t := range s.threads {
 			if !t.finished {
-				enabled = append(enabled, t.id)
+				unfinished++
+				if t.can == nil || t.can() {
+					enabled = append(enabled, t.id)
+				}
 			}
 		}
+		if unfinished == 0 {
+			break
+		}
 		if len(enabled) == 0 {
+			// every remaining thread waits for something no runnable thread can provide
+			x.Deadlock = true
+			s.abort = true
+			for _, t := range s.threads {
+				if !t.finished {
+					t.wake <- struct{}{}
+					<-s.arrive
+					t.finished = true
+				}
+			}
 			break
 		}
 		if step >= horizon {
